@@ -394,6 +394,7 @@ class _MergedCircuit:
             itertools.chain(
                 (self.mkey_indexes[ckey][-1] for ckey in c.ckeys),
                 (self.ckey_indexes[mkey][-1] for mkey in c.mkeys),
+                (self.mkey_indexes[mkey][-1] for mkey in c.mkeys),
             ),
             default=-1,
         )
@@ -404,7 +405,7 @@ class _MergedCircuit:
 
         left = [x for x in self.components_by_index[idx] if not c_qs.isdisjoint(x.qubits)]
         # `c` may only join the moment of a key it depends on by merging with that key's holder.
-        bound_mkeys = {k for k in c.ckeys if self.mkey_indexes[k][-1] == idx}
+        bound_mkeys = {k for k in c.ckeys | c.mkeys if self.mkey_indexes[k][-1] == idx}
         bound_ckeys = {k for k in c.mkeys if self.ckey_indexes[k][-1] == idx}
         return [x for x in left if bound_mkeys <= x.mkeys and bound_ckeys <= x.ckeys]
 
@@ -542,13 +543,16 @@ def _merge_operations_impl(
                     is_merged = False
                     # left_c must not move past a later component that shares its measurement keys.
                     keys_free = all(
-                        merged_circuit.ckey_indexes[k][-1] <= left_c.moment_id for k in left_c.mkeys
+                        max(merged_circuit.ckey_indexes[k][-1], merged_circuit.mkey_indexes[k][-1])
+                        <= left_c.moment_id
+                        for k in left_c.mkeys
                     ) and all(
                         merged_circuit.mkey_indexes[k][-1] <= left_c.moment_id for k in left_c.ckeys
                     )
                     # Nor into a moment whose other operations share its measurement keys.
                     keys_free = keys_free and all(
-                        o is op or (ck.isdisjoint(left_c.mkeys) and mk.isdisjoint(left_c.ckeys))
+                        o is op
+                        or ((ck | mk).isdisjoint(left_c.mkeys) and mk.isdisjoint(left_c.ckeys))
                         for o, ck, mk in keyed_ops
                     )
                     if keys_free and c_qs.issuperset(left_c.qubits):
